@@ -660,11 +660,22 @@ impl World {
                 .map_err(|e| err_info(&e))
         });
         let errors: Vec<ErrInfo> = monitor.take_errors().iter().map(err_info).collect();
-        let snap = if dest.exists() {
+        let mut snap = if dest.exists() {
             tree::walk(&dest).unwrap_or_default()
         } else {
             Snap::new()
         };
+        // Clock seam for what the restore did NOT set: anything the operating system stamped
+        // with the wall clock (a parent directory created implicitly and never given its
+        // recorded mtime, a file left after a failed restore) reads as a fixed sentinel, so
+        // that what a restore leaves is a function of the archive and never of the real time.
+        // Generated mtimes are never within a day of the present.
+        let now = std::time::SystemTime::now().duration_since(std::time::UNIX_EPOCH).map(|d| d.as_secs() as i64).unwrap_or(0);
+        for n in snap.values_mut() {
+            if (n.mtime.0 - now).abs() < 86_400 {
+                n.mtime = (3, 0);
+            }
+        }
         if own {
             let _ = std::fs::remove_dir_all(&dest);
         }
